@@ -28,6 +28,10 @@ def run(model, rep, tier):
     from . import c14
     c14.r2_once(ctx, rep, R='C03.R9')
     r10_positional_filters(ctx, rep)
+    r11_child_working_directory(ctx, rep)
+    # "--list-tests lists ... in precisely the order a run executes" with --shuffle-seed N: both
+    # invocations must use the seed N itself (shared with C11.R8)
+    c11.r8_given_seed_is_used(ctx, rep, 'C03.R12')
     rep.units['cfg'] = ctx.cfg_stats
 
 
@@ -636,3 +640,109 @@ def r10_positional_filters(ctx, rep, R='C03.R10'):
                        'finite domain; those cases are counted as "added"' % (R, src_))
         rep.ok(R, '%s reaches %s whenever given (%d adding site(s), 20 cases)' % (S, T, len(sites)))
     rep.floor(R, total, 2, 'statements adding a positional filter to a pattern list')
+
+
+# ---------------------------------------------------------------------------------------------
+# R11 -- a child resolves the (possibly relative) arguments where the parent did
+
+def r11_child_working_directory(ctx, rep, R='C03.R11'):
+    rep.rule(R, 'a layer subprocess is started in the directory the run was started in: the cwd= of '
+             'the Popen call is the reader\'s cwd parameter, which resume_tests receives from '
+             'Runner.run_tests (self.cwd = the constructor\'s cwd), and every construction of a Runner '
+             'hands over a working directory that was fixed before any test ran (os.getcwd() when the '
+             'caller gave none).  The child re-parses the original, possibly relative, --path / '
+             '--test-path arguments; a test or layer that changes the directory must not change what '
+             'the child discovers')
+    from .c02 import _bind_positional
+    from .common import node_of
+    m = ctx.model
+    sp = m.func('runner.spawn_layer_in_subprocess')
+    pop = [c for c in own_calls(sp.node) if (m.resolve_dotted(sp.module, dotted(c.func)) or '') == 'subprocess.Popen']
+    ok = len(pop) == 1 and kw(pop[0], 'cwd') is not None and is_name(kw(pop[0], 'cwd'), 'cwd') and \
+        'cwd' in [a.arg for a in sp.node.args.args] and 'cwd' not in local_assignments(sp.node)
+    rep.check(ok, R, 'spawn_layer_in_subprocess: Popen(..., cwd=<its cwd parameter>)',
+              'the layer subprocess is not started in the directory handed down by the caller',
+              key='cwd:popen', func=sp.qualname, where=ctx.where(sp, pop[0] if pop else sp.node))
+    rt = m.func('runner.resume_tests')
+    th = [c for c in own_calls(rt.node) if (m.resolve_dotted(rt.module, dotted(c.func)) or '') == 'threading.Thread'
+          and dotted(kw(c, 'target')) == 'spawn_layer_in_subprocess' and isinstance(kw(c, 'args'), ast.Tuple)]
+    ok = False
+    if len(th) == 1:
+        bound, _ar = _bind_positional(sp, list(kw(th[0], 'args').elts))
+        ok = 'cwd' in bound and is_name(bound['cwd'], 'cwd') and 'cwd' not in local_assignments(rt.node)
+    rep.check(ok, R, 'resume_tests passes its cwd parameter to every subprocess thread',
+              'resume_tests does not hand its working directory to the subprocess threads',
+              key='cwd:thread', func=rt.qualname, where=ctx.where(rt, th[0] if th else rt.node))
+    fr = m.func('runner.Runner.run_tests')
+    rc = [c for c in own_calls(fr.node) if call_name(c) == 'resume_tests']
+    ok = bool(rc)
+    for c in rc:
+        bound, _ar = _bind_positional(rt, list(c.args), list(c.keywords))
+        ok = ok and 'cwd' in bound and dotted(bound['cwd']) == 'self.cwd'
+    rep.check(ok, R, 'Runner.run_tests: resume_tests(..., self.cwd)',
+              'the layers resumed in subprocesses are not started in the Runner\'s working directory',
+              key='cwd:run_tests', func=fr.qualname, where=ctx.where(fr, rc[0] if rc else fr.node))
+    init = m.func('runner.Runner.__init__')
+    stores = [n for n in ast.walk(init.node) if isinstance(n, ast.Assign) and
+              any(dotted(t) == 'self.cwd' for t in n.targets)]
+    others = [fi.qualname for fi in m.all_functions() if fi is not init and fi.module.name != 'tests'
+              for n in ast.walk(fi.node) if isinstance(n, (ast.Assign, ast.AugAssign)) and
+              any((dotted(t) or '').endswith('.cwd') and (dotted(t) or '').split('.')[0] in ('self', 'runner')
+                  for t in (n.targets if isinstance(n, ast.Assign) else [n.target]))]
+    init_fixes = any(any((m.resolve_dotted(init.module, dotted(c.func)) or '') == 'os.getcwd'
+                         for c in ast.walk(n.value) if isinstance(c, ast.Call) and dotted(c.func))
+                     for n in stores) or any(
+        (m.resolve_dotted(init.module, dotted(c.func)) or '') == 'os.getcwd'
+        for v in local_assignments(init.node).get('cwd', []) if isinstance(v, ast.AST)
+        for c in ast.walk(v) if isinstance(c, ast.Call) and dotted(c.func))
+    ok = len(stores) == 1 and (is_name(stores[0].value, 'cwd') or init_fixes) and not others
+    rep.check(ok, R, 'Runner.__init__: self.cwd = cwd, assigned nowhere else',
+              'Runner.cwd is not the constructor argument (other stores: %s)' % others,
+              key='cwd:init', func=init.qualname, where=ctx.where(init, stores[0] if stores else init.node))
+    # every construction of a Runner outside the tests
+    n = 0
+    for fi in m.all_functions():
+        if fi.module.name.startswith('tests'):
+            continue
+        for c in own_calls(fi.node):
+            r = ctx.cg.resolve_call(c, fi)
+            if not (isinstance(r, list) and len(r) == 1 and r[0] is init):
+                continue
+            n += 1
+            bound, _ar = _bind_positional(init, list(c.args), list(c.keywords))
+            a = bound.get('cwd')
+            ok = init_fixes
+            why = 'no cwd argument'
+            if not ok and a is not None:
+                if isinstance(a, ast.Call) and (m.resolve_dotted(fi.module, dotted(a.func)) or '') == 'os.getcwd':
+                    ok = True
+                elif isinstance(a, ast.Name):
+                    g = ctx.cfg(fi)
+                    X = a.id
+                    fix = [x.id for x in g.nodes if x.kind == 'stmt' and isinstance(x.ast, ast.Assign) and
+                           any(is_name(t, X) for t in x.ast.targets) and any(
+                               (m.resolve_dotted(fi.module, dotted(cc.func)) or '') == 'os.getcwd'
+                               for cc in ast.walk(x.ast.value) if isinstance(cc, ast.Call) and dotted(cc.func))]
+
+                    def edge_ok(s_, d_, k_):
+                        nd = g.node(s_)
+                        if nd.kind == 'test' and isinstance(nd.ast, ast.Compare) and is_name(nd.ast.left, X) and \
+                                len(nd.ast.ops) == 1 and isinstance(nd.ast.comparators[0], ast.Constant) and \
+                                nd.ast.comparators[0].value is None:
+                            # the edge on which X is known not to be None is a fixed directory too
+                            if isinstance(nd.ast.ops[0], ast.Is) and k_ == 'false':
+                                return False
+                            if isinstance(nd.ast.ops[0], ast.IsNot) and k_ == 'true':
+                                return False
+                        return k_ != 'exc'
+                    cn = node_of(g, c)
+                    ok = bool(fix) and cn is not None and \
+                        cn not in g.reach([g.entry], avoid=set(fix), include_start=True, edge_ok=edge_ok)
+                    why = '%s can still be None when the Runner is created' % X
+            rep.check(ok, R, '%s: Runner(..., cwd=<fixed at start-up>)' % fi.qualname,
+                      '%s creates the Runner without pinning the working directory (%s): Popen(cwd=None) '
+                      'starts a layer subprocess wherever the parent happens to be by then -- after a test '
+                      'or layer changed the directory the child resolves relative search paths elsewhere '
+                      'and finds other tests (or none)' % (fi.qualname, why),
+                      key='cwd:create:' + fi.qualname, func=fi.qualname, where=ctx.where(fi, c))
+    rep.floor(R, n, 1, 'constructions of a Runner')
